@@ -116,7 +116,27 @@ func c16(r *core.Report, p *core.Prog, thorough bool) {
 	r.Check(bf == bp && strings.HasPrefix(bf, "d."), "C16.ratio", "full~period:same-base", p.Pos(full.Pos()), "full subtracts "+bf+", period subtracts "+bp)
 	// ratio = period/full in unlock
 	okRatio := false
-	for _, b := range unlock.Blocks {
+	ratioFns := []*ssa.Function{unlock}
+	for _, cs := range core.CallsIn(unlock, false, nil) {
+		if h := core.StaticCallee(cs.Common()); h != nil && h.Blocks != nil && h.Pkg == unlock.Pkg && h != full && h != period {
+			ratioFns = append(ratioFns, h) // the division may sit in a helper of unlock
+		}
+	}
+	for _, rf := range ratioFns {
+		for _, b := range rf.Blocks {
+			for _, in := range b.Instrs {
+				bo, ok := in.(*ssa.BinOp)
+				if !ok || bo.Op != token.QUO {
+					continue
+				}
+				xs, ys := strings.Join(core.DeepRoots(bo.X), ","), strings.Join(core.DeepRoots(bo.Y), ",")
+				if strings.Contains(xs, ".period") && strings.Contains(ys, ".full") {
+					okRatio = true
+				}
+			}
+		}
+	}
+	for _, b := range unlock.Blocks[:0] {
 		for _, in := range b.Instrs {
 			if bo, ok := in.(*ssa.BinOp); ok && bo.Op == token.QUO {
 				xs, ys := strings.Join(core.DeepRoots(bo.X), ","), strings.Join(core.DeepRoots(bo.Y), ",")
@@ -135,17 +155,9 @@ func c16(r *core.Report, p *core.Prog, thorough bool) {
 		}
 		nowArg := core.CallArgs(ucs[0].Common())[0]
 		leaves := map[string]bool{}
-		var collect func(v ssa.Value, d int)
-		collect = func(v ssa.Value, d int) {
-			if ph, ok := v.(*ssa.Phi); ok && d < 5 {
-				for _, e := range ph.Edges {
-					collect(e, d+1)
-				}
-				return
-			}
-			leaves[describe(v)] = true
+		for _, lv := range ValueLeaves(nowArg, 1) { // through phis and a clamp helper's returns
+			leaves[describe(lv)] = true
 		}
-		collect(nowArg, 0)
 		hasEnd, hasStart := false, false
 		for l := range leaves {
 			if strings.HasSuffix(l, ".ExpireAt") {
